@@ -412,7 +412,8 @@ def run(tier):
     rng = random.Random(vlib.seed())
     diffs = collections.OrderedDict()      # correspondence name -> first difference
     ncorr = collections.Counter()
-    findings = collections.OrderedDict()   # key tuple -> (key, detail, what)
+    findings = collections.OrderedDict()   # key tuple -> (key, detail, what, prio)
+    seen_kinds = collections.Counter()
     evals = 0
     nontrivial = set()
     samples = []
@@ -421,10 +422,12 @@ def run(tier):
         if name not in diffs:
             diffs[name] = {"case": case, "model": model, "impl": impl}
 
-    def finding(key, detail, what):
+    def finding(key, detail, what, prio=5):
+        """one witness per class of failing input; a lower prio replaces an earlier witness (clearer instance)"""
         kt = (key["kind"], key.get("consumer_stride_y")) + ((key.get("axis"), key.get("stride")) if key["kind"].startswith("tap_mismatch") else ())
-        if kt not in findings:
-            findings[kt] = (key, detail, what)
+        seen_kinds[key["kind"] + ("/compiled" if detail.get("net") else "")] += 1
+        if kt not in findings or prio < findings[kt][3]:
+            findings[kt] = (key, detail, what, prio)
 
     def mrun(name, cases):
         if not okx or not cases:
@@ -619,11 +622,13 @@ def run(tier):
             if off and axis == "h":
                 finding({"kind": "read_offset_height"}, wit,
                         "operator reading rows [%d,%d) of a taller tensor (split/slice fused into the consumer), k=%d s=%d %s: the height clip "
-                        "ignores the read window: hardware reads %s, operator reads %s" % (off, off + W, k, s, pad, mm[2], mm[3]))
+                        "ignores the read window: hardware reads %s, operator reads %s" % (off, off + W, k, s, pad, mm[2], mm[3]),
+                        prio=(0 if (s == 1 and pad == "SAME" and k == 3 and d == 1 and isinstance(mm[2], int)) else 2 if isinstance(mm[2], int) else 4))
             elif off:
                 finding({"kind": "read_offset_width_strided"}, wit,
                         "operator reading columns [%d,%d) of a wider tensor with stride %d: the read offset is multiplied by the stride: "
-                        "hardware reads %s, operator reads %s" % (off, off + W, s, mm[2], mm[3]))
+                        "hardware reads %s, operator reads %s" % (off, off + W, s, mm[2], mm[3]),
+                        prio=(0 if (s == 2 and pad == "SAME" and k == 3 and d == 1 and isinstance(mm[2], int)) else 2 if isinstance(mm[2], int) else 4))
             else:
                 finding({"kind": "tap_mismatch", "axis": axis, "stride": s}, wit,
                         "full-width stripe of W=%d k=%d s=%d d=%d %s: hardware reads %s, operator reads %s" % (W, k, s, d, pad, mm[2], mm[3]))
@@ -791,7 +796,7 @@ def run(tier):
         o2["slices"] = [0, full[3]]
         gen_specs.append([o2])
     # two- and three-operator cascades (producer stripe = consumer stripe * stride, as propose_schedule_striping)
-    casc_geo = list(itertools.product(range(4, 14 if tier == "quick" else 22), (1, 2, 3, 5), (1, 2), (1, 2, 3), ("SAME", "VALID")))
+    casc_geo = [(10, 3, 1, 3, "SAME")] + list(itertools.product(range(4, 14 if tier == "quick" else 22), (1, 2, 3, 5), (1, 2), (1, 2, 3), ("SAME", "VALID")))
     for _ in range(40 if tier == "quick" else 1500):
         casc_geo.append((rng.randrange(14, 120), rng.choice([1, 2, 3, 4, 5, 7]), rng.choice([1, 1, 2]), rng.choice([1, 2, 3]), rng.choice(["SAME", "VALID"])))
     for (H, k, d, s, pad) in casc_geo:
@@ -851,6 +856,23 @@ def run(tier):
             why = partition_error(boxes, lo, hi)
             if why:
                 finding({"kind": "ofm_not_partitioned"}, {"op": o, "boxes": boxes}, "OFM boxes of an operator do not partition its output: " + why)
+        # oracle 1b: every stripe the generator emitted is tap-equal to its operator
+        for c in real:
+            o = spec[c[0]]
+            st, en = c[1][1], c[2][1]
+            w0 = o["woff"][1] if o["woff"] else 0
+            ho = o["wshape"][1] if o["woff"] else o["ofm"][1]
+            pr = real_create_padding([0, 0] + list(o["padding"]) + [1 if st == w0 else 0, 1 if en >= w0 + ho else 0, c[5], c[6], 0, 0, 0,
+                                                                    o["ifm"][2], c[3][2], c[4][2]])
+            mm = stripe_tap_mismatch(c[3][1], c[4][1], pr[0], pr[2], st, en, o["sy"], o["k_h"], o["dil_h"], 0, o["ifm"][1], o["padding"][0], w0)
+            evals += 1
+            if mm:
+                finding({"kind": "tap_mismatch", "axis": "h", "stride": o["sy"]},
+                        dict(H=o["ifm"][1], kernel=o["k_h"], dilation=o["dil_h"], stride=o["sy"], padding=o["pad"], ofm_rows=[st, en],
+                             ifm_box=[c[3][1], c[4][1]], hw_pad_top=pr[0], hw_pad_bottom=pr[2], ofm_row=mm[0], tap=mm[1],
+                             hardware_reads=mm[2], operator_reads=mm[3], via="generate_high_level_commands_for_sched_op"),
+                        "generator stripe rows [%d,%d) of H=%d k=%d s=%d d=%d %s: hardware reads %s, operator reads %s" % (
+                            st, en, o["ifm"][1], o["k_h"], o["sy"], o["dil_h"], o["pad"], mm[2], mm[3]))
         # oracle 2: rolling buffers of the cascade (rows tracked per slot)
         for oi in range(1, len(spec)):
             cons, prod = spec[oi], spec[oi - 1]
@@ -1050,7 +1072,7 @@ def run(tier):
         "programs": programs, "passes_checked": passes_checked, "stripes_checked": stripes_checked, "rolling_buffer_reads_checked": rolling_checked,
         "generator_schedules": len(gen_specs), "cascades_with_overrun": overruns,
         "cascaded_producers_with_unread_tail_rows_not_produced": tail_gaps, "outside_model": dict(outside),
-        "disagreements_checked": len(findings),
+        "disagreements_checked": len(findings), "oracle_rejections_by_kind": dict(seen_kinds),
         "input_distribution": {"extents": "exhaustive 1..%d, random to 300" % (10 if tier == "quick" else 12), "kernel": "1..4 exhaustive, to 8 random",
                                "stride": "1..3", "dilation": "1..2", "padding": "SAME, VALID, EXPLICIT (pads <= k_dilated//2)",
                                "stripe heights": "1..OFM height (all for OFM <= 12)", "write offsets": "0, 3 (height); 0, 2 (width)",
@@ -1061,7 +1083,7 @@ def run(tier):
                         "TFLite output-size formulas define the un-striped operator's output extent"]
 
     reported = False
-    for kt, (key, detail, what) in findings.items():
+    for kt, (key, detail, what, _prio) in findings.items():
         full_key = dict(key)
         for f in ("H", "kernel", "stride", "padding", "stripe_height", "net", "seed", "extent", "read_offset"):
             if f in detail and f not in full_key:
